@@ -537,7 +537,10 @@ def check(ctx: Ctx):
     ctx.expect("ARG", 8)
     ctx.expect("STATELESS", 15)
     ctx.expect("FORMULA-ID", 10)
-    ctx.expect("WIRING", 6)
+    from ..rules import support as _sup_r11
+
+    _sup_r11.check_property_setters_kept(ctx)
+    ctx.expect("WIRING", 7)
     ctx.exhaustive = True
     ctx.trust("exact arithmetic over the reals (no floating-point claim)", "NumPy sqrt/** are the real functions on positive reals")
     ctx.assume("scalar-vs-array dispatch of NumPy and last-bit floating-point agreement are not decided")
